@@ -21,7 +21,7 @@ def _gen_chunk(args):
     for _ in range(n):
         h = random_header(rng, family)
         try:
-            ops, lines = gen_history(rng, h, rng.randrange(8, 60), stats=st)
+            ops, lines = gen_history(rng, h, rng.randrange(8, 60) if family not in ("slot", "cbelt") else rng.randrange(12, 90), stats=st)
         except Exception as e:   # generator / adapter crash: report as an implementation trace that ends in an error
             ops, lines = [("settle",)], ["err " + type(e).__name__ + " |"]
         out.append((h, ops, lines))
